@@ -74,6 +74,53 @@ func (g *c18Gates) pass(ctx context.Context, kind string) error {
 	}
 }
 
+// database double of the client instance: counts the read transactions the store opens ITSELF
+// (getPartTxFree) and how many of them were finalized — each must be released exactly once, when
+// the returned reader is closed or on every early-return path
+type c18CountDB struct {
+	database.Database
+	begun, finalized atomic.Int64
+}
+
+func (d *c18CountDB) BeginTx(ctx context.Context, opts *sql.TxOptions) (*database.TxController, error) {
+	_, nested := database.TxControllerFromContext(ctx)
+	tx, err := d.Database.BeginTx(ctx, opts)
+	if err == nil && !nested {
+		d.begun.Add(1)
+		var once sync.Once
+		fin := func(context.Context) error { once.Do(func() { d.finalized.Add(1) }); return nil }
+		tx.OnRollback(fin)
+		tx.OnAfterCommit(fin)
+	}
+	return tx, err
+}
+
+// statement-level isolation for ONE stepped tx-free read (marked by its context): every repository
+// lookup of that read parks first, then runs in a fresh read transaction, i.e. sees the latest
+// committed entries (what Postgres READ COMMITTED gives; SQLite's snapshot hides it)
+type c18RCKey struct{}
+type c18RC struct {
+	raw    database.Database
+	at     chan struct{}
+	permit chan struct{}
+}
+
+func (rc *c18RC) lookup(ctx context.Context, f func(ctx context.Context, tx *sql.Tx) error) error {
+	select {
+	case rc.at <- struct{}{}:
+	case <-ctx.Done():
+		return ctx.Err()
+	}
+	select {
+	case <-rc.permit:
+	case <-ctx.Done():
+		return ctx.Err()
+	}
+	return database.WithTx(context.WithoutCancel(ctx), rc.raw, &sql.TxOptions{ReadOnly: true}, func(c2 context.Context, tx database.Tx) error {
+		return f(c2, tx.SqlTx())
+	})
+}
+
 // parks a client's GetPartIds between its two reads (whichever read comes first in the code)
 type c18Mid struct {
 	armed  atomic.Bool
@@ -100,6 +147,31 @@ type c18Repo struct {
 	mid   *c18Mid
 }
 
+func (r *c18Repo) FindLastPartOutboxEntryByPartId(ctx context.Context, tx *sql.Tx, outboxId string, partId partstore.PartId) (*partOutboxEntry.Entity, error) {
+	if rc, ok := ctx.Value(c18RCKey{}).(*c18RC); ok {
+		var e *partOutboxEntry.Entity
+		err := rc.lookup(ctx, func(c2 context.Context, tx2 *sql.Tx) error {
+			var err error
+			e, err = r.Repository.FindLastPartOutboxEntryByPartId(c2, tx2, outboxId, partId)
+			return err
+		})
+		return e, err
+	}
+	return r.Repository.FindLastPartOutboxEntryByPartId(ctx, tx, outboxId, partId)
+}
+func (r *c18Repo) FindPartOutboxEntryChunkByIndexWithEntryPresence(ctx context.Context, tx *sql.Tx, outboxId string, id ulid.ULID, idx int) (*partOutboxEntry.ContentChunk, bool, error) {
+	if rc, ok := ctx.Value(c18RCKey{}).(*c18RC); ok {
+		var c *partOutboxEntry.ContentChunk
+		var present bool
+		err := rc.lookup(ctx, func(c2 context.Context, tx2 *sql.Tx) error {
+			var err error
+			c, present, err = r.Repository.FindPartOutboxEntryChunkByIndexWithEntryPresence(c2, tx2, outboxId, id, idx)
+			return err
+		})
+		return c, present, err
+	}
+	return r.Repository.FindPartOutboxEntryChunkByIndexWithEntryPresence(ctx, tx, outboxId, id, idx)
+}
 func (r *c18Repo) FindLastPartOutboxEntryGroupedByPartId(ctx context.Context, tx *sql.Tx, outboxId string) ([]partOutboxEntry.Entity, error) {
 	es, err := r.Repository.FindLastPartOutboxEntryGroupedByPartId(ctx, tx, outboxId)
 	r.mid.hit(ctx)
@@ -304,8 +376,8 @@ func c18Content(cid int) []byte {
 		return nil
 	}
 	n := 1 + cid%4
-	if cid >= 900 { // spans two 8 MiB outbox chunks
-		n = 600000
+	if cid >= 900 { // 9.1 MB: spans two 8 MiB outbox chunks
+		n = 700000
 	}
 	return bytes.Repeat([]byte(fmt.Sprintf("c18-part-%d|", cid)), n)
 }
@@ -373,6 +445,45 @@ type c18Shadow struct {
 	claims  int
 	expired bool
 	crashes int
+	rd      *c18ShRead // stepped tx-free read in progress
+	txfree  bool
+	stepped bool
+	vanish  bool // an entry vanished under a stepped read
+}
+type c18ShRead struct {
+	pid, id, cid, next int
+	phase              byte // 'p' about to look the last entry up, 'l' looked, 's' streaming
+}
+
+func c18NChunks(cid int) int {
+	switch {
+	case cid == 0:
+		return 0
+	case cid >= 900:
+		return 2
+	}
+	return 1
+}
+func (s *c18Shadow) present(id int) bool {
+	for _, e := range s.es {
+		if e.id == id {
+			return true
+		}
+	}
+	return false
+}
+func (s *c18Shadow) lookup(pid int) {
+	for i := len(s.es) - 1; i >= 0; i-- {
+		if s.es[i].pid == pid {
+			if s.es[i].cid < 0 {
+				s.rd = nil
+			} else {
+				s.rd = &c18ShRead{pid: pid, id: s.es[i].id, cid: s.es[i].cid, phase: 'l'}
+			}
+			return
+		}
+	}
+	s.rd = nil
 }
 
 func newC18Shadow(lease int) *c18Shadow {
@@ -428,6 +539,40 @@ func (s *c18Shadow) step(st c18Step) {
 				}
 			}
 		}
+	case 'g':
+		s.txfree = true
+	case 'r':
+		if s.rd == nil {
+			s.stepped = true
+			s.lookup(st.n)
+		}
+	case 's':
+		if s.rd == nil {
+			return
+		}
+		r := s.rd
+		switch r.phase {
+		case 'p':
+			s.lookup(r.pid)
+		case 'l':
+			if !s.present(r.id) {
+				s.vanish = true
+				r.phase = 'p'
+			} else if c18NChunks(r.cid) == 0 {
+				s.rd = nil
+			} else {
+				r.phase, r.next = 's', 1
+			}
+		case 's':
+			if !s.present(r.id) {
+				s.vanish = true
+				s.rd = nil
+			} else if r.next < c18NChunks(r.cid) {
+				r.next++
+			} else {
+				s.rd = nil
+			}
+		}
 	case 'K':
 		s.phase[w] = 0
 		s.crashes++
@@ -467,7 +612,7 @@ func c18GenCase(r *Rng) string {
 				cid++
 				if r.Chance(6) {
 					c = 0
-				} else if r.Chance(2) {
+				} else if r.Chance(2) && r.Chance(35) { // two-chunk parts cost ~1 s each: rare here, always in the corpus
 					c = 900 + cid
 				}
 				os = append(os, fmt.Sprintf("%d+%d", p, c))
@@ -522,8 +667,37 @@ func c18GenCase(r *Rng) string {
 			emit(fmt.Sprintf("K%d", w))
 		case x < 79:
 			emit(fmt.Sprintf("H%d", w))
+		case x < 87:
+			if r.Chance(30) {
+				emit(fmt.Sprintf("g%d", 1+r.Intn(npid)))
+			} else {
+				emit(fmt.Sprintf("G%d", 1+r.Intn(npid)))
+			}
 		case x < 90:
-			emit(fmt.Sprintf("G%d", 1+r.Intn(npid)))
+			// a tx-free read stepped lookup by lookup with flush steps in between (no commit in between)
+			emit(fmt.Sprintf("r%d", 1+r.Intn(npid)))
+			for j := 0; j < 6 && sh.rd != nil; j++ {
+				w := r.Intn(nw)
+				switch y := r.Intn(100); {
+				case y < 35:
+					emit("s")
+				case y < 80:
+					// a burst of flush steps by one worker: the looked-up entry may be gone afterwards
+					for k := 0; k < 3*(1+r.Intn(3)) && len(sh.es) > 0; k++ {
+						if sh.phase[w] == 0 && sh.es[0].owner >= 0 && sh.es[0].until > sh.now {
+							emit(fmt.Sprintf("T%d", lease))
+						}
+						emit(next(w))
+					}
+				case y < 92:
+					emit(next(w))
+				default:
+					emit(fmt.Sprintf("K%d", w))
+				}
+			}
+			for j := 0; j < 8 && sh.rd != nil; j++ {
+				emit("s")
+			}
 		case x < 95:
 			// GetPartIds with flush steps between its two reads (no commit in between)
 			emit("B")
@@ -578,7 +752,11 @@ func c18GenCase(r *Rng) string {
 			emit(fmt.Sprintf("F%d", late))
 		}
 		for p := 1; p <= npid; p++ {
-			emit(fmt.Sprintf("G%d", p))
+			if r.Chance(30) {
+				emit(fmt.Sprintf("g%d", p))
+			} else {
+				emit(fmt.Sprintf("G%d", p))
+			}
 		}
 		emit("I")
 	}
@@ -592,6 +770,9 @@ func c18GenCase(r *Rng) string {
 func (c18) Run(in string, scratch string) Result {
 	if strings.HasPrefix(in, "ORD ") {
 		return c18OrdRun("part", in, scratch)
+	}
+	if strings.HasPrefix(in, "STO ") {
+		return c18StoRun(in, scratch)
 	}
 	f := strings.Fields(in)
 	lease, _ := strconv.Atoi(f[0])
@@ -640,6 +821,15 @@ func (c18) Run(in string, scratch string) Result {
 			break
 		}
 	}
+	if sh.txfree {
+		tags = append(tags, "txfree-read")
+	}
+	if sh.stepped {
+		tags = append(tags, "txfree-stepped")
+	}
+	if sh.vanish {
+		tags = append(tags, "entry-vanished-mid-read")
+	}
 
 	db, err := c21OpenDB(scratch, filepath.Join(scratch, "db", "pithos.db"))
 	if err != nil {
@@ -662,7 +852,12 @@ func (c18) Run(in string, scratch string) Result {
 	env := &c18Env{db: db, realRepo: realRepo, fs: fs, clock: &c18Clock{}, lease: lease, seq: map[string]int{}, workers: map[int]*c18Worker{}}
 	mid := &c18Mid{at: make(chan struct{}, 1), permit: make(chan struct{})}
 	var listingRes chan string
-	env.client, err = partOutbox.New(db, "default", &c18Inner{PartStore: fs, mid: mid}, &c18Repo{Repository: realRepo, clock: env.clock, saved: &env.saved, mid: mid}, prometheus.NewRegistry(), time.Duration(lease)*c18Unit)
+	rcPid, rcDirty, rcStart := 0, false, ""
+	cdb := &c18CountDB{Database: db}
+	rc := &c18RC{raw: db, at: make(chan struct{}), permit: make(chan struct{})}
+	var rcRes chan string
+	var rcCancel context.CancelFunc
+	env.client, err = partOutbox.New(cdb, "default", &c18Inner{PartStore: fs, mid: mid}, &c18Repo{Repository: realRepo, clock: env.clock, saved: &env.saved, mid: mid}, prometheus.NewRegistry(), time.Duration(lease)*c18Unit)
 	if err != nil {
 		return Result{Out: "SETUP-ERROR " + err.Error(), Oracle: "FAIL:setup"}
 	}
@@ -674,6 +869,10 @@ func (c18) Run(in string, scratch string) Result {
 		pidOf[id.String()] = p
 	}
 	defer func() {
+		if rcRes != nil {
+			rcCancel()
+			<-rcRes
+		}
 		if listingRes != nil {
 			close(mid.permit)
 			<-listingRes
@@ -757,6 +956,9 @@ func (c18) Run(in string, scratch string) Result {
 					} else {
 						committed[o[0]] = o[1]
 					}
+					if rcRes != nil && o[0] == rcPid {
+						rcDirty = true
+					}
 				}
 			}
 			outs[i] = c18ErrStr(err)
@@ -824,13 +1026,58 @@ func (c18) Run(in string, scratch string) Result {
 			outs[i] = "ok"
 		case 'L':
 			outs[i] = "UNSUPPORTED"
-		case 'G':
+		case 'r':
+			pid, ok := partIDs[st.n]
+			if rcRes != nil || !ok {
+				outs[i] = "-"
+				continue
+			}
+			rctx, cancel := context.WithCancel(context.WithValue(bg, c18RCKey{}, rc))
+			ch := make(chan string, 1)
+			go func() { ch <- c18Get(rctx, db, env.client, pid, true) }()
+			rcRes, rcCancel, rcPid, rcDirty = ch, cancel, st.n, false
+			rcStart = "NF"
+			if c, ok := committed[st.n]; ok {
+				rcStart = "=" + strconv.Itoa(c)
+			}
+			<-rc.at // parked before the first lookup: let it run
+			fallthrough
+		case 's':
+			if rcRes == nil {
+				outs[i] = "-"
+				continue
+			}
+			rc.permit <- struct{}{}
+			select {
+			case <-rc.at:
+				outs[i] = "ok"
+			case got := <-rcRes:
+				rcCancel()
+				rcRes = nil
+				if got == "=BAD" {
+					got = "MIX"
+				}
+				outs[i] = got
+				want := "NF"
+				if c, ok := committed[rcPid]; ok {
+					want = "=" + strconv.Itoa(c)
+				}
+				// a commit on the part during the read: the value before or after it, or a failed read —
+				// never mixed bytes or a short body reported as complete
+				okDirty := rcDirty && (got == rcStart || got == "RERR")
+				if got != want && !okDirty && oracleFail == "" {
+					oracleFail = fmt.Sprintf("step %d tx-free GetPart(%d), lookups interleaved with flush steps, returned %s, the latest committed operation says %s (at its start: %s)", i, rcPid, got, want, rcStart)
+				}
+			case <-time.After(120 * time.Second):
+				outs[i] = "TIMEOUT"
+			}
+		case 'G', 'g':
 			pid, ok := partIDs[st.n]
 			var got string
 			if !ok {
 				got = "NF"
 			} else {
-				got = c18Get(bg, db, env.client, pid, i%2 == 1)
+				got = c18Get(bg, db, env.client, pid, st.kind == 'g')
 			}
 			outs[i] = got
 			want := "NF"
@@ -939,7 +1186,16 @@ func (c18) Run(in string, scratch string) Result {
 	if oracleFail != "" {
 		oracle = "FAIL:" + oracleFail
 	}
-	return Result{Out: strings.Join(outs, " ") + " # " + innerTok + " Q" + strconv.Itoa(pending), Oracle: oracle, Tags: tags}
+	if rcRes != nil {
+		rcCancel()
+		<-rcRes
+		rcRes = nil
+	}
+	leaked := cdb.begun.Load() - cdb.finalized.Load()
+	if leaked != 0 && oracle == "OK" {
+		oracle = fmt.Sprintf("FAIL:%d of the %d read transactions the tx-free GetPart opened itself were not released", leaked, cdb.begun.Load())
+	}
+	return Result{Out: strings.Join(outs, " ") + " # " + innerTok + " Q" + strconv.Itoa(pending) + " L" + strconv.FormatInt(leaked, 10), Oracle: oracle, Tags: tags}
 }
 
 func c18Ints(ns []int) string {
@@ -964,7 +1220,7 @@ func c18Get(ctx context.Context, db database.Database, st partstore.PartStore, p
 		defer rc.Close()
 		b, err := io.ReadAll(rc)
 		if err != nil {
-			return c18ErrStr(err)
+			return "RERR"
 		}
 		return c18CidOf(b)
 	}
